@@ -66,11 +66,23 @@ def Names.removed (n : Names) : List Name := [n.ctx, n.metrics, n.conversion, n.
 def removeAll (ns : List Name) (dir : List Name) : List Name := dir.filter (fun x => !ns.contains x)
 
 /-- The `prepare…File` calls, one after the other; `oks` says which `os.WriteFile` succeed. The
-first failure returns at once — the files created so far stay (the removal is registered later). -/
-def prepare : List Name → List Bool → List Name → List Name × Bool
-  | [], _, dir => (dir, true)
-  | n :: ns, [], dir => prepare ns [] (n :: dir)
-  | n :: ns, ok :: oks, dir => if ok then prepare ns oks (n :: dir) else (dir, false)
+first failure returns at once. Result: the directory, the names created so far (the path variables
+that are non-empty), whether all were created. -/
+def prepare : List Name → List Bool → List Name → List Name → List Name × List Name × Bool
+  | [], _, dir, cr => (dir, cr, true)
+  | n :: ns, [], dir, cr => prepare ns [] (n :: dir) (cr ++ [n])
+  | n :: ns, ok :: oks, dir, cr =>
+    if ok then prepare ns oks (n :: dir) (cr ++ [n]) else (dir, cr, false)
+
+/-- The deferred removal (registered before the first file is prepared): unless the keep-tmp debug
+variable is "yes", `os.Remove` of every path variable that is non-empty, in the code's order. -/
+def cleanup (keepTmp : Bool) (names : Names) (created : List Name) (dir : List Name) : List Name :=
+  if keepTmp then dir else removeAll (names.removed.filter (fun x => created.contains x)) dir
+
+/-- The unrepaired `Run` registered the removal only after all five files existed: a failure
+half-way left the earlier files behind (regression witness in `Props/C12`). -/
+def cleanupUnrepaired (keepTmp : Bool) (names : Names) (allCreated : Bool) (dir : List Name) : List Name :=
+  if keepTmp || !allCreated then dir else removeAll names.removed dir
 
 /-! ## `Hook.Run` -/
 
@@ -100,16 +112,22 @@ def runBody (out : Outputs) : Stage :=
   else if out.patch = .unreadable then .patchRead
   else .none
 
-/-- `Run`: prepare the files, register the deferred removal (skipped when the keep-tmp debug variable
-is "yes"), run and parse, remove. -/
+/-- `Run`: register the deferred removal, prepare the files, run and parse; the removal runs on
+every return path. -/
 def run (keepTmp : Bool) (names : Names) (oks : List Bool) (out : Outputs) (dir : List Name) : RunResult :=
-  match prepare names.created oks dir with
-  | (dir1, false) => ⟨.prepare, false, dir1, .none, .none, .none, .empty⟩
-  | (dir1, true) =>
+  match prepare names.created oks dir [] with
+  | (dir1, created, false) =>
+    ⟨.prepare, false, cleanup keepTmp names created dir1, .none, .none, .none, .empty⟩
+  | (dir1, created, true) =>
     let stage := runBody out
-    let dir2 := if keepTmp then dir1 else removeAll names.removed dir1
+    let dir2 := cleanup keepTmp names created dir1
     if stage = .none then ⟨.none, true, dir2, out.metrics, out.admission, out.conversion, out.patch⟩
     else ⟨stage, true, dir2, .none, .none, .none, .empty⟩   -- on error the patch bytes were not read yet
+
+/-- The temp directory after the unrepaired `Run` (removal registered after the five prepares). -/
+def runUnrepairedDir (keepTmp : Bool) (names : Names) (oks : List Bool) (dir : List Name) : List Name :=
+  match prepare names.created oks dir [] with
+  | (dir1, _, ok) => cleanupUnrepaired keepTmp names ok dir1
 
 /-! ## `handleRunHook` -/
 
